@@ -244,6 +244,8 @@ def main():
         run.add("decomposition.modified[%s]" % g, "bounded", ob_decomposition, g, "modified", 0.8)
         run.add("decomposition.maxwell[%s]" % g, "bounded", ob_decomposition, g, "maxwell", 1.2 + 0.2j)
         run.add("decomposition.maxwell.real-k[%s]" % g, "bounded", ob_decomposition, g, "maxwell", 1.5)
+        run.add("decomposition.maxwell.imaginary-k[%s]" % g, "bounded", ob_decomposition, g, "maxwell", 0.9j)
+        run.add("decomposition.helmholtz.imaginary-k[%s]" % g, "bounded", ob_decomposition, g, "helmholtz", 0.7j)
     run.add("symmetry+constants[octa]", "bounded", ob_symmetry_and_constants, "octa")
     run.bound("pipeline contracts: two-element meshes (4 local numberings), tetrahedron, two disjoint grids (thorough: 2x2 screen); 2 regular / 3,2,1 singular points")
     run.bound("matrix decompositions: octahedron (thorough: + screen) with 3 domain indices, 5 space option sets x 2, orders (3,3)")
